@@ -30,6 +30,7 @@ def generate(seed: int, tier: str) -> dict:
     st = Streams(seed)
     cfg = gen.swarm(st("swarm"), tier, profile="scope" if st("swarm").random() < 0.4 else "edit")
     cfg["perturb"] = False
+    cfg["trailing_blank"] = False  # the laws speak about canonically formatted documents
     # VALUEs that carry their own end-of-line comment (`2 # note`): part of "all values"
     cfg["commented_values"] = True
     from .props import MAX_DOC_LINES
